@@ -7,6 +7,7 @@
        reference            the type part of the id is registered for the spec version and has no x- prefix
        embedded object      cf_obj one level down (class named by the property)
        list of objects      every element cf_obj
+       marking definition   the wrapped marking object cf_obj for its own class
        list                 every element custom-free for the element kind
        observable container, bundle member, extensions dictionary: not covered (false)
        every other kind (strings, integers, timestamps, enumerations, ...) has no room for custom content.
@@ -30,6 +31,7 @@ Section CF.
     | KEmbedded cid0 => cfo cid0 v
     | KListOf cid0 => match v with PArr l => forallb (cfo cid0) l | _ => false end
     | KList k' => match v with PArr l => forallb (cf_val cfo k') l | _ => false end
+    | KMarking _ => match v with PObject ci _ _ _ => cfo ci v | _ => false end
     | KObservable _ | KStixObject _ | KExtensions _ => false        (* not covered *)
     | _ => true
     end.
